@@ -138,9 +138,17 @@ def build(job, scratch):
     for l in loops:
         if l["file"].startswith("<builtin") or "/cprover" in l["file"] or not l["file"]:
             continue
-        if l["file"].startswith(REPO) and is_macro_loop(l):
+        if l["file"].startswith(REPO) and "lw_xor_block" in src_line(l["file"], l["line"]):
+            # lw_xor_block(dest, src, 32): do { while (_len > 0) ... } while (0) on one source line, constant length 32
+            unwindset.append("%s:33" % l["name"])
+            facts["macro_loops"] += 1
+        elif l["file"].startswith(REPO) and is_macro_loop(l):
             unwindset.append("%s:1" % l["name"])
             facts["macro_loops"] += 1
+        elif l["file"].startswith(os.path.join(VERIF, "stubs")) or l["file"].startswith(os.path.join(VERIF, "spec")):
+            # fixed-count loops of the contract stubs (key words, 8 tag bytes, ...): unwound, unwinding assertions on
+            if job.get("loops"):
+                unwindset.append("%s:%d" % (l["name"], job.get("stub_unwind", 9)))
         else:
             real.setdefault(l["function"], []).append(l)
     # declared pre-unwinds: fixed-count loops (by function + ordinal among real loops)
@@ -233,10 +241,15 @@ def cbmc_flags(job):
 
 def parse_results(out):
     res = []
+    curfile = ""
     for line in out.split("\n"):
+        h = re.match(r"^(\S+) function (\S+)$", line.strip())
+        if h:
+            curfile = h.group(1)
+            continue
         m = RES.match(line.strip())
         if m:
-            res.append({"name": m.group("name"), "line": int(m.group("line") or 0), "file": m.group("file") or "",
+            res.append({"name": m.group("name"), "line": int(m.group("line") or 0), "file": m.group("file") or curfile,
                         "desc": m.group("desc"), "status": m.group("st")})
     return res
 
